@@ -2,6 +2,8 @@ import TongoProofs.Lemmas.WalletMsg
 import TongoProofs.Lemmas.HighloadDict
 import TongoProofs.Lemmas.WalletExt
 import TongoProofs.Lemmas.WalletInt
+import TongoGen.WalletInts
+import TongoProofs.Lemmas.GenTiesWallet
 /-! Property C14 — wallet-built messages carry the requested transfers under a valid signature.
 
 Model: `TongoModel/WalletMsg.lean` (bodies per version, signature placement, external-message envelope, verifiers,
@@ -512,5 +514,31 @@ example : (Version.v4r2).family = .v4 ∧ ({ subWallet := 698983191 } : BodyIds)
 example : ∃ m, contractDeploy (fun _ => List.replicate 32 0) 0 (some (.ordinary [true] [])) (some (.ordinary [] [])) none 5 = .ok m ∧
     (internalLayout m).depthO ≤ maxDepth ∧ m.dest.hash.length = 32 := by
   refine ⟨_, rfl, by decide, by decide⟩
+/-! ### the highload query id and the default send mode: regenerated Go code against the model -/
+
+/-- tie (X4, regenerated from wallet/wallet_highload_v2.go): the Go expression
+`uint64(msgConfig.ValidUntil.UTC().Unix()<<32) + uint64(rand.Uint32())` of `createSignedMsgBodyCell` (64-bit shift and
+wrapping add on `BitVec`, `Gen.WalletInts.highloadQueryID`) is the value
+`(validUntil * 4294967296 + rnd) % 18446744073709551616` that the model's highload `bodyCell` writes on 64 bits, for
+every non-negative `int64` unix time and every `uint32` random word. -/
+theorem gen_highloadQueryID (validUntil rnd : Nat) (hv : validUntil < 2 ^ 63) (hr : rnd < 2 ^ 32) :
+    (Gen.WalletInts.highloadQueryID (BitVec.ofNat 64 validUntil) (BitVec.ofNat 32 rnd)).toNat
+      = (validUntil * 4294967296 + rnd) % 18446744073709551616 :=
+  GenTies.gen_highloadQueryID validUntil rnd hv hr
+
+/-- tie (X4, regenerated from wallet/wallet_highload_v2.go): for `validUntil < 2^32` (every date until 2106) the
+regenerated query id does not wrap: its high half is `validUntil` (what the parse side reads back as
+`q / 4294967296`) and its low half is the random word. -/
+theorem gen_highloadQueryID_unpack (validUntil rnd : Nat) (hv : validUntil < 2 ^ 32) (hr : rnd < 2 ^ 32) :
+    (Gen.WalletInts.highloadQueryID (BitVec.ofNat 64 validUntil) (BitVec.ofNat 32 rnd)).toNat / 4294967296
+        = validUntil ∧
+      (Gen.WalletInts.highloadQueryID (BitVec.ofNat 64 validUntil) (BitVec.ofNat 32 rnd)).toNat % 4294967296
+        = rnd :=
+  ⟨GenTies.gen_highloadQueryID_div validUntil rnd hv hr, GenTies.gen_highloadQueryID_mod validUntil rnd hv hr⟩
+
+/-- tie (X4, regenerated from wallet/models.go): the send mode returned by `SimpleTransfer.ToInternal`
+(`DefaultMessageMode`) is `3 = 1 + 2`: pay transfer fees separately (1) + ignore errors of the action phase (2). -/
+theorem gen_defaultMessageMode : Gen.WalletInts.defaultMessageMode = 3#8 :=
+  GenTies.gen_defaultMessageMode
 
 end Tongo.C14
